@@ -177,7 +177,7 @@ def ensures_ok(ctx, body, guard_pred, depth=3, _stack=None):
     """summary: every success return of `body` passes the Ok of a guard call (directly or
     through callees up to `depth`).  Cached per (body, guard id)."""
     cache = ctx.__dict__.setdefault("_ens", {})
-    key = (body.d.id, id(guard_pred), depth)
+    key = (body.d.id, guard_pred, depth)   # the predicate object itself: id() values are reused after GC
     if key in cache:
         return cache[key]
     _stack = _stack or set()
@@ -231,7 +231,7 @@ def guard_edges(ctx, fv, guard_pred, depth=2, _stack=None):
 
 def _mentions_guard(ctx, body, guard_pred, depth):
     cache = ctx.__dict__.setdefault("_men", {})
-    key = (body.d.id, id(guard_pred))
+    key = (body.d.id, guard_pred)
     if key in cache:
         return cache[key]
     cache[key] = False
